@@ -48,8 +48,14 @@ static const char* const LISTS[] = {
   "0=off;1=on;2=auto;3=eco",
   "1=on",
   "0x10=sixteen;254=max;1=one;0=zero",
+  // names are free text: the name alphabet also covers names that look like numbers
+  "1=3way;2=2nd;100=1st;3=33%",          // 4: names starting with a digit
+  "0=10;1=20;2=30",                       // 5: numeric names that are no key of the list
+  "1=2;2=1;3=3",                          // 6: numeric names that are keys of other entries (permutation) / the own key
+  "1=0002;2=0001;3=0003",                 // 7: fixed-width numeric names (PIN style)
+  "0=hot water;1=1.5;2=-5;3=0x10",        // 8: blank inside, fraction, sign, hex prefix
 };
-static const int NLISTS = 4;
+static const int NLISTS = 9;
 inline vector<std::pair<uint32_t, string>> parseList(const string& s) {
   vector<std::pair<uint32_t, string>> v;
   size_t pos = 0;
@@ -422,6 +428,8 @@ struct Enumerator {
     struct { const char* type; int list; } L[] = {
       {"UCH", 1}, {"UCH", 3}, {"U1L", 2}, {"UIN", 3}, {"UIR", 1}, {"ULG", 3}, {"U3N", 3}, {"BI3:2", 1}, {"BI3:2", 2},
       {"BI0:7", 1}, {"BI7", 2}, {"BCD", 1}, {"HCD:1", 2}, {"BDY", 0}, {"HDY", 0}, {"BDY", 1}, {"SCH", 1},
+      {"UCH", 4}, {"UCH", 5}, {"UCH", 6}, {"UCH", 8}, {"UIN", 4}, {"UIR", 6}, {"ULG", 5}, {"BI3:2", 5}, {"BI3:2", 6},
+      {"BI0:7", 8}, {"PIN", 7}, {"PIN", 6}, {"BCD", 5}, {"HDY", 6}, {"SCH", 8},
     };
     for (auto& l : L) {
       if (stop()) break;
